@@ -286,3 +286,58 @@ reg("C39", "exploration",
     "read-back of all entries; under rel and ASan+LSan.",
     "Name-normalisation rules are taken from the header comments and upstream unit tests. Three open known findings.",
     "sequential reference-model history checking with sanitizers")
+
+reg("C17", "exploration",
+    "After every mj_forward/mj_step of real step histories (contact piles, chains linked by equalities and tendons across trees, "
+    "toggled eq_active, dense and sparse Jacobians, both cones) an independent union-find over the dense efc_J (plus the flex "
+    "stiffness coupling rule) gives the reference components: tree_island must equal them, dof_island/efc_island must follow their "
+    "trees, island ids must ascend with the smallest tree, and all map_* / island_* arrays must be mutually inverse permutations or "
+    "partitions. The exported union-find and flood-fill helpers are driven directly by an ASan native harness over every ordered "
+    "merge sequence (incl. static endpoints) on small forests and every graph on <= 4-5 vertices, against a label-propagation reference.",
+    "When value-based and structure-based coupling differ the engine partition must lie between the two. One open known finding "
+    "(island discovery aborts on a constraint between two static bodies).",
+    "reference-model oracle on real histories + bounded-exhaustive differential harness under ASan")
+
+reg("C18", "exploration",
+    "An online trace checker observes every step of histories with injected user writes (qpos, qvel, qfrc_applied, xfrc_applied, "
+    "incl. -0.0), mocap pushes, drops onto sleeping piles and equality toggles: tree_asleep must encode closed cycles (independent "
+    "walker, cross-checked with mj_sleepCycle), sleeping trees keep bit-identical qpos and zero qvel, every documented wake event "
+    "wakes the whole former cycle by the next position stage (coupling decided by a sleep-disabled twin model at the same state), "
+    "the documented awake countdown is respected, and a sleep-enabled run equals a sleep-disabled run bit for bit until the first "
+    "tree sleeps (flex-free models).",
+    "RK4 excluded and sleep enabled before mj_makeData (both documented); waking more than required is allowed; wake-on-ctrl is "
+    "not demanded (documented). One open known finding (flex vertices sleeping separately, then an engine abort).",
+    "online trace checker with reference automaton + twin-model coupling oracle + bitwise twin execution")
+
+reg("C20", "fault_enumeration",
+    "Fault plan over arena sizes: for a (model, state) the arena actually needed (A) is measured, then mjModel.narena is set to each "
+    "size of a grid that is dense near A (0, 256, 1K, 4K, 40-120 fractions of A concentrated in [0.7, 1.02], A(1-2^-k), A-8..A-4096, "
+    "A, A+64), a fresh mjData is made, the same state loaded and forward/step executed under the error trap with the shadow "
+    "allocator on (rel flavour plus an ASan subsample). Per size: no crash or sanitizer report; the outcome is success, a "
+    "CONTACTFULL/CNSTRFULL warning or a trapped mju_error; after success the truncated constraint set must be structurally "
+    "consistent (efc_address < nefc, efc_type/efc_id in range, island maps in-range permutations, parena <= narena - pstack); fewer "
+    "contacts/constraints than the ample run require a warning; equal counts require bit-identical accelerations.",
+    "Stack exhaustion raising mju_error is documented behaviour; the arena size is varied through mjModel.narena before "
+    "mj_makeData. Sizes are a dense grid, not every byte.",
+    "fault enumeration over arena sizes with structural validator + shadow allocator + ASan")
+
+reg("C21", "fault_enumeration",
+    "For each (scenario, model) the number N of allocations through mju_malloc is counted, then the k-th allocation fails for "
+    "k = 1..N (every k in thorough when N <= 400, a stride in quick) plus seeded multi-fault runs; scenarios: parse, loadXML, "
+    "compile, makeData, copyData, copyModel, save+loadModelBuffer, copySpec, recompile, step/forward/inverse, makeScene, print, "
+    "reset+keyframe. The native harness runs under ASan+UBSan with an interposed allocator whose shadow table detects double or "
+    "foreign frees and blocks still live after all objects are deleted (with the function that allocated them); the failure must "
+    "surface as a trapped mju_error or an error/NULL return with a message.",
+    "Only allocations routed through mju_malloc are faulted (the statement's scope). Leaks caused by mju_malloc raising before the "
+    "callers' clean-up are open known findings keyed by allocating function; any new leak site, crash, double free or sanitizer "
+    "report is a violation.",
+    "fault enumeration of allocation failures under ASan with a shadow allocation table")
+
+reg("C33", "exploration",
+    "Serialized images and all arrays are compared between: two compiles of fresh parses under different allocator fill patterns "
+    "(0x00/0xA5 vs 0x3C: uninitialised bytes would differ), a second mj_compile of the same spec, the compile of mj_copySpec, "
+    "mj_copyModel, and compiles with the threaded asset compiler on and off, repeated; mj_recompile must keep the physics state of "
+    "the mjData it is given. Models carry 8-40 visual inline-vertex meshes and builtin textures so the asset pool has real tasks; a "
+    "native harness repeats threaded compiles under TSan and ASan and compares digests.",
+    "Collision meshes (qhull) and file-based assets are out of reach in this build; TSan sees the interleavings that occurred.",
+    "twin-compilation bitwise oracle with allocator fill patterns + TSan/ASan-hosted threaded compiles")
